@@ -655,7 +655,42 @@ func (t *State) verifyTxRWSets(tx *pb.Transaction) (bool, error) {
 		return false, fmt.Errorf("write set not equal")
 	}
 
+	// the transfers made by the contracts must really be part of the transaction: their inputs are
+	// exempt from the owner's signature, so the outputs they pay for must go where the contract said
+	utxoRWSet := sandBox.UTXORWSet()
+	if !isContractUtxoEffective(utxoRWSet.Rset, utxoRWSet.WSet, tx) {
+		return false, fmt.Errorf("contract utxo not match the utxo of tx")
+	}
+
 	return true, nil
+}
+
+// isContractUtxoEffective checks that every contract-originated input is an input of the
+// transaction and that the contract-originated outputs are a sub-multiset of its outputs
+func isContractUtxoEffective(contractInputs []*protos.TxInput, contractOutputs []*protos.TxOutput, tx *pb.Transaction) bool {
+	txInputs := map[string]bool{}
+	for _, txInput := range tx.GetTxInputs() {
+		txInputs[utxo.GenUtxoKey(txInput.GetFromAddr(), txInput.GetRefTxid(), txInput.GetRefOffset())] = true
+	}
+	for _, in := range contractInputs {
+		if !txInputs[utxo.GenUtxoKey(in.GetFromAddr(), in.GetRefTxid(), in.GetRefOffset())] {
+			return false
+		}
+	}
+	outputKey := func(out *protos.TxOutput) string {
+		return fmt.Sprintf("%s_%s_%d", out.GetToAddr(), new(big.Int).SetBytes(out.GetAmount()).String(), out.GetFrozenHeight())
+	}
+	txOutputs := map[string]int{}
+	for _, txOutput := range tx.GetTxOutputs() {
+		txOutputs[outputKey(txOutput)]++
+	}
+	for _, out := range contractOutputs {
+		if txOutputs[outputKey(out)] < 1 {
+			return false
+		}
+		txOutputs[outputKey(out)]--
+	}
+	return true
 }
 
 // verifyAutoTxRWSets verify auto tx read sets and write sets
